@@ -119,3 +119,14 @@ fn d10_int_vector_mapper_offset_max() {
     fs::remove_file(&name).unwrap();
     assert_eq!(r.ok(), Some(true), "offset usize::MAX must be refused with an error, not a panic");
 }
+
+// D11: the rounding helpers panicked (debug) at the last value their documentation admits:
+// `May panic if n + 7 > usize::MAX` (n + 63 for bits), but the code added 8 (64) before subtracting 1.
+#[test]
+fn d11_rounding_helpers_last_documented_value() {
+    use simple_sds::bits;
+    assert_eq!(bits::bytes_to_words(usize::MAX - 7), usize::MAX / 8);
+    assert_eq!(bits::bits_to_words(usize::MAX - 63), usize::MAX / 64);
+    assert_eq!(bits::round_up_to_word_bytes(usize::MAX - 7), usize::MAX - 7);
+    assert_eq!(bits::round_up_to_word_bits(usize::MAX - 63), usize::MAX - 63);
+}
